@@ -139,7 +139,7 @@ def product(mats):
 
 def check_product(node_matrix, mats, clause, what):
     P = product(mats)
-    tol = 1e-5
+    tol = 3e-5
     for m in mats:
         tol *= frob(m)
     if not close(node_matrix, P, tol):
@@ -152,7 +152,7 @@ def ints(M):
     out = []
     for v in numpy.asarray(M, dtype=numpy.float64).reshape(-1):
         r = round(float(v)) if math.isfinite(float(v)) else BAD
-        out.append(int(r) if abs(float(v) - r) < 1e-4 and abs(r) < 2 ** 40 else BAD)
+        out.append(int(r) if abs(float(v) - r) < 0.05 and abs(r) < 2 ** 40 else BAD)
     return out
 
 
